@@ -258,6 +258,10 @@ func (e *engineA) finish() error {
 			}
 		}
 	}
+	// the load stops as well: what is pending has to settle without anybody
+	// pushing (a membership action that only resumes at the next write would
+	// otherwise go unnoticed)
+	e.stopLoad()
 	e.rc.emit(&ev.Rec{K: "faults-stopped"})
 	start := atomic.LoadInt64(&e.ticks)
 	const bound = 400
@@ -365,6 +369,12 @@ func (e *engineA) converged() (bool, string) {
 				e.refused = map[uint64]string{}
 			}
 			e.refused[n.nid] = fmt.Sprintf("faulty follower: leader %d refuses member %d (%s)", ldr.nid, n.nid, ldrInfo.Followers[n.nid].ErrMessage)
+		}
+		if !conf.Nodes[n.nid].Voter && info.Term <= ldrInfo.Term {
+			// a non-voter gets no heartbeats while there is nothing to send:
+			// it forgets who leads after a while, which costs nothing. What
+			// counts for it is that it has everything (checked below).
+			continue
 		}
 		if info.Term != ldrInfo.Term || info.Leader != ldr.nid {
 			// (the refusal shows in the leader's status only between two attempts)
